@@ -262,6 +262,20 @@ func resolveRunPath(runPath string, opts py.CompileOpts, pathObjs []py.Object, t
 		cont = true
 	)
 
+	// An absolute pathname names the file itself: it is not searched for
+	// along the given paths (joining it to a search path would make it
+	// relative to that path).
+	if filepath.IsAbs(runPath) {
+		cont, err = tryPath(runPath)
+		if err != nil {
+			return err
+		}
+		if cont {
+			return py.ExceptionNewf(py.FileNotFoundError, "Failed to resolve %q", runPath)
+		}
+		return nil
+	}
+
 	for _, pathObj := range pathObjs {
 		pathStr, ok := pathObj.(py.String)
 		if !ok {
